@@ -38,7 +38,11 @@ pub const PROP: Prop = Prop {
            accepted, never a panic. Non-trivial: framing and command well-formed so that the verdict hinged on the \
            path. (c) e2e: matrices of repositories {explicit allow, no policy, explicit block} x {public, private with \
            generated allow/delegate subsets, visibility changed by a later identity revision} on one serving node \
-           (default policy block or allow), three requester nodes; every cell is fetched over real connections. \
+           (default policy block or allow), three requester nodes; every cell is fetched over real connections; \
+           in a second phase (always in quick, generated in thorough) a served private repository loses one \
+           allow-listed requester through an identity revision made while the nodes run and every cell is fetched \
+           again (serving node with a single worker in quick, generated in thorough), so that anything a worker \
+           remembers from the first phase would show. \
            Non-trivial: a matrix containing a refused cell and an allowed private cell. Distinct = hash of the case.",
     assumptions: &[
         "(b) a request is 'canonical' when its path is `/` + optional single `rad:` + `z` + base58btc of exactly 20 bytes and \
@@ -1187,6 +1191,14 @@ mod e2e {
         repos: Vec<RepoSpec>,
         /// seed of the cell order
         order: u16,
+        /// second phase: while the nodes run, every private repository whose only delegate is the serving node
+        /// and whose allow list is non-empty loses its lowest allow-listed requester (identity revision on the
+        /// serving node); then every cell is fetched again
+        #[serde(default)]
+        revoke: bool,
+        /// the serving node runs a single worker (both phases of a pair are then handled by the same worker)
+        #[serde(default)]
+        single_worker: bool,
     }
 
     // ---- capture of the serving side's log
@@ -1289,6 +1301,9 @@ mod e2e {
         // declared first = dropped last (after all nodes have shut down)
         let mut env = Environment::new();
         let mut cfg = Config::test(Alias::new("server"));
+        if m.single_worker {
+            cfg.workers = 1;
+        }
         if m.default_allow {
             cfg.seeding_policy = DefaultSeedingPolicy::permissive();
         }
@@ -1367,9 +1382,43 @@ mod e2e {
         let mut refused_cells = 0;
         let mut allowed_private_cells = 0;
         let mut verdict: CaseResult = Ok(());
+        let mut specs: Vec<RepoSpec> = m.repos.clone();
+        let phases = if m.revoke { 2 } else { 1 };
 
-        for (r, p) in cells {
-            let spec = &m.repos[p];
+        'phases: for phase in 0..phases {
+        if phase == 1 {
+            // ---- revocation while everything is running
+            let mut revoked = 0;
+            for (p, spec) in specs.iter_mut().enumerate() {
+                if !(spec.private && spec.allow != 0 && spec.delegates == 0) {
+                    continue;
+                }
+                let gone = spec.allow.trailing_zeros() as usize;
+                spec.allow &= !(1u8 << gone);
+                let allow: Vec<Did> = (0..REQUESTERS).filter(|j| spec.allow >> j & 1 == 1).map(|j| Did::from(req_ids[j])).collect();
+                let repo = server.storage.repository(rids[p]).unwrap();
+                let mut identity = Identity::load_mut(&repo).unwrap();
+                let doc = identity.doc().clone().with_edits(|raw| raw.visibility = Visibility::private(allow.clone())).unwrap();
+                let rev = identity.update("c12", "revoke", &doc, &server.signer).unwrap();
+                assert!(identity.revision(&rev).unwrap().is_accepted(), "harness: revoking revision accepted");
+                repo.set_identity_head_to(rev).unwrap();
+                repo.sign_refs(&server.signer).unwrap();
+                let stored = server.storage.repository(rids[p]).unwrap().identity_doc().unwrap().doc;
+                assert!(!stored.is_visible_to(&Did::from(req_ids[gone])), "harness: revoked requester no longer visible");
+                revoked += 1;
+            }
+            if revoked == 0 {
+                break 'phases;
+            }
+            ctx.count_n("e2e:phase2:repositories-with-revocation", revoked);
+            // the lines and upload events of the first phase name the same (requester, repository) pairs
+            LINES.lock().unwrap().clear();
+            upload_events.clear();
+            for _ in s_events.try_iter() {}
+            shuffle(&mut cells, m.order as u64 + 77);
+        }
+        for (r, p) in cells.clone() {
+            let spec = &specs[p];
             let rid = rids[p];
             let nid = req_ids[r];
             let seeded = match spec.seeding % 3 {
@@ -1462,7 +1511,7 @@ mod e2e {
                 let decided = success
                     || refused_logged
                     || has_line(&served_line)
-                    || (!expect && (data_sent || in_storage));
+                    || (!expect && (data_sent || (in_storage && phase == 0)));
                 if decided || attempt >= MAX_ATTEMPTS {
                     break (describe, success, refused_logged, data_sent, in_storage);
                 }
@@ -1472,17 +1521,18 @@ mod e2e {
 
             if !expect {
                 let sig_kind = if !seeded { "unseeded" } else { "invisible" };
+                let sig_kind = if phase == 1 && sig_kind == "invisible" && (m.repos[p].allow >> r & 1 == 1) { "revoked" } else { sig_kind };
                 if success || has_line(&served_line) {
                     verdict = fail(format!("e2e:served-{sig_kind}"), describe);
-                    break;
+                    break 'phases;
                 }
                 if data_sent {
                     verdict = fail(format!("e2e:data-sent-{sig_kind}"), describe);
-                    break;
+                    break 'phases;
                 }
-                if in_storage {
+                if in_storage && phase == 0 {
                     verdict = fail(format!("e2e:repository-arrived-{sig_kind}"), describe);
-                    break;
+                    break 'phases;
                 }
                 if refused_logged {
                     refused_cells += 1;
@@ -1495,7 +1545,7 @@ mod e2e {
             } else {
                 if refused_logged {
                     verdict = fail("e2e:authorized-peer-refused", describe);
-                    break;
+                    break 'phases;
                 }
                 if success {
                     ctx.count("e2e:served-as-expected");
@@ -1516,6 +1566,7 @@ mod e2e {
             }
         }
 
+        }
         if verdict.is_ok() && refused_cells > 0 && allowed_private_cells > 0 {
             ctx.nontrivial(&("e2e", m));
             ctx.sample("e2e", m);
@@ -1558,6 +1609,8 @@ mod e2e {
                 let others: Vec<usize> = (0..REQUESTERS).filter(|i| *i != stranger).collect();
                 let spread = |m: u8| -> u8 { (0..2).filter(|k| m >> k & 1 == 1).map(|k| 1u8 << others[k]).sum() };
                 let (allow, delegates) = (spread(a), spread(d));
+                // make sure the second phase has a served repository to revoke a requester from
+                let last_private = last_private || d != 0;
                 let unserved = |seeding: u8, private: bool| RepoSpec {
                     seeding,
                     private,
@@ -1574,14 +1627,16 @@ mod e2e {
                         RepoSpec { seeding: 0, private: last_private, allow: if last_private { 7 } else { 0 }, delegates: 0, flipped },
                     ],
                     order,
+                    revoke: true,
+                    single_worker: true,
                 }
             },
         )
     }
 
     fn thorough_strategy() -> impl Strategy<Value = Matrix> {
-        (any::<bool>(), proptest::collection::vec(spec_strategy(), 6..=9), any::<u16>())
-            .prop_map(|(default_allow, repos, order)| Matrix { default_allow, repos, order })
+        (any::<bool>(), proptest::collection::vec(spec_strategy(), 6..=9), any::<u16>(), any::<bool>(), any::<bool>())
+            .prop_map(|(default_allow, repos, order, revoke, single_worker)| Matrix { default_allow, repos, order, revoke, single_worker })
     }
 
     pub fn run(ctx: &Ctx) {
